@@ -184,6 +184,20 @@ def run_case(case, R):
     j = int(rng.integers(41))
     sc = float(np.asarray(cos.call(np.array([ks[j]]), T)).reshape(-1)[0])
     judge("scalar-vs-vector", abs(sc - call[j]) / S, "parity", "single strike price differs from the ladder price", "scalar_vs_vector")
+    # long strike vectors (300 .. 1100 strikes, lengths that are and are not multiples of powers of two): element by element the price of the
+    # same strike alone
+    n_long = int(rng.choice([257, 300, 513, 777, 1024, 1100]))
+    ks_long = S * np.exp(np.linspace(lo, hi, n_long))
+    try:
+        cl_, pl_, dl_ = cos.call(ks_long, T), cos.put(ks_long, T), cos.digital(ks_long, T)
+        dev_l = 0.0
+        for j_ in sorted({0, 1, 127, 255, 256, n_long // 2, n_long - 2, n_long - 1} | {int(v) for v in rng.integers(0, n_long, size=4)}):
+            kj_ = np.array([ks_long[j_]])
+            dev_l = max(dev_l, abs(float(np.asarray(cos.call(kj_, T)).reshape(-1)[0]) - cl_[j_]) / S, abs(float(np.asarray(cos.put(kj_, T)).reshape(-1)[0]) - pl_[j_]) / S,
+                        abs(float(np.asarray(cos.digital(kj_, T)).reshape(-1)[0]) - dl_[j_]))
+        judge("long-strike-vector-vs-single-strikes", dev_l, "parity", f"call / put / digital of a vector of {n_long} strikes differ from the prices of the same strikes alone", "scalar_vs_vector")
+    except Exception as exc:  # noqa: BLE001
+        R.violation(f"{fam}-long-strike-vector-raises", f"{label}: {n_long} strikes: {type(exc).__name__}: {exc}", wit)
     # price(product)
     for pay, ref in ((Vanilla(strike=ks, payoff_type=PayoffType.CALL), call), (Vanilla(strike=ks, payoff_type=PayoffType.PUT), put),
                      (Forward(strike=ks), fwd)):
@@ -218,6 +232,21 @@ def run_case(case, R):
         judge("cos-vs-bs-put", np.max(np.abs(bp - put)) / S, "cos_bs", "COS put differs from the Black-Scholes formula", "cos_vs_blackscholes")
         judge("bs-parity", np.max(np.abs(bc - bp - np.array([cf.forward(k, T) for k in ks]))) / S, "parity", "closed-form parity", "cos_vs_blackscholes")
         judge("cos-vs-bs-digital", np.max(np.abs(cf.digital(ks, T) - dig)), "cos_bs", "COS digital differs from Black-Scholes", "cos_vs_blackscholes")
+        # the closed form at very small total variance (sigma sqrt(T) of 1e-5 .. 1e-3 with sigma and T both well above the degenerate
+        # thresholds): the Black-Scholes formula written here, strikes within a few standard deviations of the forward
+        from scipy.stats import norm as _norm
+
+        dev_s = 0.0
+        for sig_s, T_s in ((0.02, 1e-5), (0.05, 1e-6), (float(spec["params"]["sigma"]), 1e-4), (0.3, 3e-8)):
+            cf_s = W.build_model(dict(spec, params={"sigma": sig_s})).closed_form
+            sd_s = sig_s * math.sqrt(T_s)
+            F_s, df_s = S * math.exp((spec["r"] - spec["d"]) * T_s), math.exp(-spec["r"] * T_s)
+            for z_ in (-2.0, -0.5, 0.0, 0.7, 2.5):
+                k_s = F_s * math.exp(z_ * sd_s)
+                d1_ = (math.log(F_s / k_s) + 0.5 * sd_s**2) / sd_s
+                want_cs = df_s * (F_s * _norm.cdf(d1_) - k_s * _norm.cdf(d1_ - sd_s))
+                dev_s = max(dev_s, abs(float(cf_s.call(k_s, T_s)) - want_cs) / S, abs(float(cf_s.put(k_s, T_s)) - (want_cs - df_s * (F_s - k_s))) / S)
+        judge("bs-closed-form-small-total-variance", dev_s, "parity", "closed form with a small total variance differs from the Black-Scholes formula", "closed_form_without_volatility")
         # closed-form butterflies (symmetric and not, body below and above the forward) = their call combination
         dev_b = 0.0
         for _ in range(8):
